@@ -17,7 +17,8 @@ _SPEC_TERM = [r'^verif_spec::(aval|spec_tag|spec_val_enc|set_enc|members_enc|sca
 
 _A_STREAM = ('A-stream: std::io::Read::read_exact / futures AsyncReadExt::read_exact deliver exactly the next n bytes '
              'or fail, independent of fragmentation, Interrupted and not-ready results (assumed contract on the dependency)')
-_A_BYTES = 'A-bytes: contracts of bytes::{Buf,BufMut,Bytes,BytesMut} as written in specs/verif_ext.rs'
+_A_BYTES = ('A-bytes: contracts of bytes::{Buf,BufMut,Bytes,BytesMut} as written in specs/verif_ext.rs; A-mem: a live object (Bytes, '
+            'String, slice) occupies at most a quarter of the address space, stated on the exec functions that return its length')
 _A_UTF8 = 'A-utf8: lossy(utf8(s)) == s and |utf8(lossy(b))| <= 3|b| for the uninterpreted UTF-8 functions'
 _A_LOG = 'A-log (W7): log macro arguments are not evaluated in the verified text; logging neither panics nor changes results'
 _A_W8 = 'A-W8/W9: the mechanical loop-header (enumerate) and `mut self` rewrites preserve semantics'
